@@ -322,6 +322,7 @@ func (t *tracer) run(seed int64, nthreads, nops int, closeConc bool) error {
 	}
 	t.log.ev(map[string]interface{}{"ev": "final", "tr": t.tr, "all": arr, "commits": t.commits.Load()})
 	t.log.ev(map[string]interface{}{"ev": "reset", "tr": t.tr})
+	t.log.w.Flush() // a crash of the code under test in a later trace must not lose the traces recorded so far
 	t.log.mu.Unlock()
 	return nil
 }
